@@ -1,4 +1,4 @@
-\* exhaustive over the stratified document domain (<= 2 bindings per kind): kopt 16200, kopt2 16384, ksel 720, cross 5.4k loadable + 21.5k rejected, cross2 2880, sched 4325, hooks 6972 documents + ~1000 single-fault mutations of 6 base documents; legacy format (no configVersion): v0kube 3328, v0sched 545 documents + ~40 single-fault mutations of 3 base documents
+\* exhaustive over the stratified document domain (<= 2 bindings per kind): kopt 16200, kopt2 16384, ksel 720, cross 5.4k loadable + 21.5k rejected, cross2 2880, sched 4325, hooks 6972 documents + ~1000 single-fault mutations of 6 base documents; legacy format (no configVersion): v0kube 3328, v0sched 545 documents + ~100 single-fault mutations of 3 base documents
 SPECIFICATION Spec
 CONSTANTS
   Strata = {"kopt", "kopt2", "ksel", "cross", "crossrej", "cross2", "sched", "hooks", "fault", "v0kube", "v0sched", "v0fault"}
